@@ -20,17 +20,19 @@
 //   signed_rule+signed_action -> T   signed_rule_old+signed_action -> T   signed_rule_with_action -> T
 //
 // INPUT DOMAIN of a family with digit bound L:   prefix + digits + trailer, ALL combinations of
-//   digits   : every digit string of length 0..L (leading zeros included)
-//   L <= 5   : prefix in { "", "+", "-", "--", "+-", " " }, trailer in { "", "x", "/", ":", "+", "-", "\0", "\xb0" }
-//   L >= 6   : prefix in { "", "+", "-" }, trailer in { "", "x" }  (thorough: + "/", ":")
+//   digits   : every digit string of length 0..L (leading zeros included; length 0 gives "", "+", "-x", ...)
+//   core families (syntax-only, type-limit families, Max in {9, 100, type max}), digit length <= R:
+//              prefix in { "", "+", "-", "--", "+-", " " }, trailer in { "", "x", "/", ":", "+", "-", "\0", "\xb0" }
+//   otherwise: prefix in { "", "+", "-" }, trailer in { "", "x" }
 //   plus the boundary neighbourhood list N (every family): for v in { limit-D..limit+D for limit in
 //   2^7,2^8,2^15,2^16,2^31,2^32,2^63,2^64 ; 10^k-1,10^k,10^k+1 for k=0..21 ; every Max used +-2 } the strings
 //   dec(v), dec(v) with any digit appended, any digit prepended (incl. '0'), last digit replaced; x prefix
-//   { "", "+", "-" } x trailer { "", "x" }.        D = 2 (quick), 300 (thorough)
+//   { "", "+", "-" } x trailer { "", "x" }.
 //
-//   quick   : L = 4 for 8-bit targets and for every Max < 1000, L = 6 for 16-bit targets, the syntax-only
-//             families and Max >= 10000, L = 5 for 1000 <= Max < 10000; 32/64-bit targets: L = 4 plus N.
-//   thorough: every L one larger (5 / 7 / 6), N with D = 300, two more trailers for L >= 6.
+//   quick   : R = 4, D = 2;  L = 4 for 8-bit limits, for Max < 1000 and for limits wider than 16 bit (their
+//             boundaries come from N);  L = 5 for 1000 <= Max <= 65534;  L = 6 for the u16/i16 type limits,
+//             Max = 10000, Max = 65535 (u16) and the syntax-only families.
+//   thorough: R = 5, D = 100; L one larger for the core families (5 / 7).
 //
 // Every case = (family, input) is run on an exact-size buffer that ends at a PROT_NONE page, through
 //   parse< R, A, normal, apply_mode, rewind_mode::required >             (cursor observed after failure)
@@ -677,7 +679,7 @@ static bool eval_case( const Family& f, const std::string& s )
       g_sampled[ f.rule ] = 1;
       vf::sample( "{\"family\":\"" + vf::jesc( f.name ) + "\",\"input\":\"" + vf::jesc( vf::show( s ) ) + "\",\"oracle\":\"" + exp_str( f, e ) + "\",\"library\":\"" + obs_str( o, f.has_value ) + "\"}" );
    }
-   return bad == 0;
+   return bad == 0 && !overread;
 }
 
 // =====================================================================================================
@@ -748,17 +750,17 @@ int main( int argc, char** argv )
    }
 
    const bool th = vf::args.thorough();
-   const long D = th ? 300 : 2;
+   const long D = th ? 100 : 2;
    std::vector< std::string > neigh;
    neighbourhood( D, neigh );
 
    const std::vector< std::string > rich_pre = { "", "+", "-", "--", "+-", " " };
    const std::vector< std::string > rich_tr = { "", "x", "/", ":", "+", "-", std::string( 1, '\0' ), "\xb0" };
    const std::vector< std::string > basic_pre = { "", "+", "-" };
-   const std::vector< std::string > basic_tr = th ? std::vector< std::string >{ "", "x", "/", ":" } : std::vector< std::string >{ "", "x" };
+   const std::vector< std::string > basic_tr = { "", "x" };
    const std::vector< std::string > neigh_tr = { "", "x" };
 
-   vf::st.note = std::string( "exhaustive per family (" ) + std::to_string( g_fams.size() ) + " families = every integer.hpp rule/action x u8..u64/i8..i64 x Max lists): prefix+digits+trailer for ALL digit strings of length 0..L, L=" + ( th ? "5 (8-bit, Max<1000, 32/64-bit), 6 (Max<10000), 7 (16-bit, syntax-only, Max>=10000)" : "4 (8-bit, Max<1000, 32/64-bit), 5 (Max<10000), 6 (16-bit, syntax-only, Max>=10000)" ) + "; 6 prefixes x 8 trailers for L<=5, 3 prefixes x " + std::to_string( basic_tr.size() ) + " trailers above; plus boundary neighbourhood list (" + std::to_string( neigh.size() ) + " numerals: 2^{7,8,15,16,31,32,63,64}+-" + std::to_string( D ) + ", 10^k+-1 k<=21, every Max+-2, each with a digit appended/prepended/replaced) x 3 signs x 2 trailers; each case run direct + inside seq<R,eof> and seq<R,one<x>> with rewind_mode::required on a guard-page-terminated exact-size buffer";
+   vf::st.note = std::string( "exhaustive per family (" ) + std::to_string( g_fams.size() ) + " families = every integer.hpp rule/action x u8..u64/i8..i64 x Max lists): prefix+digits+trailer for ALL digit strings of length 0..L; quick L = 4 (8-bit and wider-than-16-bit limits, Max<1000), 5 (1000<=Max<=65534), 6 (u16/i16 type limits, Max 10000 and 65535, syntax-only families); thorough: L+1 for the core families (syntax-only, type-limit, Max in {9,100,type max}); core families use 6 prefixes x 8 trailers up to digit length " + ( th ? "5" : "4" ) + ", everything else 3 signs x {end,'x'}; plus boundary neighbourhood list (" + std::to_string( neigh.size() ) + " numerals: 2^{7,8,15,16,31,32,63,64}+-" + std::to_string( D ) + ", 10^k+-1 k<=21, every Max+-2, each with a digit appended/prepended/replaced) x 3 signs x 2 trailers for every family; each case run direct + inside seq<R,eof> and seq<R,one<x>> with rewind_mode::required on a guard-page-terminated exact-size buffer";
 
    long global = 0;
    long tick = 0;
@@ -767,7 +769,7 @@ int main( int argc, char** argv )
    std::string s;
    for( const Family& f : g_fams ) {
       if( stop ) break;
-      const int L = f.L + ( th ? 1 : 0 );
+      const int L = f.L + ( ( th && f.rich ) ? 1 : 0 );
       const int Lrich = f.rich ? ( th ? 5 : 4 ) : -1;
       char digs[ 16 ];
       for( int len = 0; len <= L && !stop; ++len ) {
